@@ -54,7 +54,8 @@ def c12(c):
     drv = S.build_driver(c, race=True)
     batches = [("race-random", rnd(c, 1500 if c.quick else 20000, extra=["-nostamp"])),
                ("race-random-big", rnd(c, 200 if c.quick else 3000, maxj=40, maxn=8, extra=["-nostamp"])),
-               ("race-scripted", scripts(c, 300 if c.quick else 3000) + ["-nostamp"])]
+               ("race-scripted", scripts(c, 300 if c.quick else 3000) + ["-nostamp"]),
+               ("race-concenq", ["-mode", "concenq", "-seed", c.seed, "-runs", 400 if c.quick else 5000, "-nostamp"])]
     reports = 0
     for name, args in batches:
         c.log("driver", name)
@@ -93,13 +94,14 @@ CAPACITY = ("capacity", lambda c: ["-mode", "capacity", "-seed", c.seed, "-runs"
 # the default limit max(GOMAXPROCS, 4) under different GOMAXPROCS values (expected 4, 4, 8)
 CAPDEF = [("capacity-gomaxprocs%d" % g, (lambda c: ["-mode", "capacity", "-defaultn", "-seed", c.seed, "-runs", 12 if c.quick else 100]),
            {"GOMAXPROCS": str(g)}) for g in (1, 2, 8)]
+CONCENQ = ("concenq", lambda c: ["-mode", "concenq", "-seed", c.seed, "-runs", 200 if c.quick else 2000, "-nohooks"])
 PROMPT = ("prompt", lambda c: ["-mode", "prompt", "-seed", c.seed, "-runs", 120 if c.quick else 1200])
 WIDE = ("wide", lambda c: ["-mode", "wide", "-seed", c.seed, "-runs", 8 if c.quick else 60, "-deadline", "4s"])
 PILEUP = ("pileup", lambda c: ["-mode", "pileup", "-seed", c.seed, "-runs", 250 if c.quick else 2500])
 
 REGISTRY = {
     "C01": generic("C01", ["q_dup"], ["q_dup", "t_ff4", "t_coe4"],
-                   extra=[("fanin", lambda c: ["-mode", "fanin", "-seed", c.seed, "-runs", 6 if c.quick else 60, "-maxj", 600, "-maxn", 8])]),
+                   extra=[("fanin", lambda c: ["-mode", "fanin", "-seed", c.seed, "-runs", 6 if c.quick else 60, "-maxj", 600, "-maxn", 8]), CONCENQ]),
     "C03": generic("C03", ["q_exit"], ["q_exit", "t_n3", "t_ctx2"], extra=[CAPACITY] + CAPDEF),
     "C05": generic("C05", ["q_exit", "q_can"], ["q_exit", "q_can", "t_all3", "t_ff4"], extra=[PILEUP, WIDE]),
     "C06": generic("C06", ["q_ff"], ["q_ff", "t_all3", "t_ff4"], extra=[PILEUP, WIDE]),
